@@ -103,7 +103,9 @@ Soundness  == (done /\ ~S.fail) => Sound(sys, S.sl)
 PassItemsCommute ==
     \A kind \in {"pos", "sfs", "shs"} : \A o1 \in Objs(sys), o2 \in Objs(sys), a1 \in Axes(sys), a2 \in Axes(sys) :
         (o1 < o2 \/ (o1 = o2 /\ a1 < a2)) =>
-        Item(kind, sys, Item(kind, sys, S, o1, a1), o2, a2) = Item(kind, sys, Item(kind, sys, S, o2, a2), o1, a1)
+        LET x == Item(kind, sys, Item(kind, sys, S, o1, a1), o2, a2)
+            y == Item(kind, sys, Item(kind, sys, S, o2, a2), o1, a1)
+        IN x = y \/ (x.fail /\ y.fail)      \* after an error only the outcome "failed" matters (fail is absorbing)
 \* slots are written once (except when the chaotic variant restarts from the initial state)
 WriteOnce == [][ phase' = phase => \A o \in Objs(sys), a \in Axes(sys) :
                     /\ (S.sh[o][a] # U => S'.sh[o][a] = S.sh[o][a])
